@@ -614,7 +614,18 @@ func (s *sender) SendMsg(_ context.Context, m gsmsg.GraphSyncMessage) error {
 	}
 	return errNet
 }
-func (s *sender) Close() error { return nil }
+// Close is called by the queue goroutine in the done branch, after the shutdown drain and before the
+// deferred ReleasePeerMemory.  In every second exit (parity of the transactions started so far, so that
+// both windows are exercised and the choice is a function of the script) the goroutine is held HERE
+// instead of at ReleasePeerMemory: for the model both are the position "after the drain, closed, before
+// ReleasePeerMemory" (printed as pc=relpeer), so a transaction scripted at that position arrives right
+// after the final drain, while the sender is being closed -- it must be rejected with Error.
+func (s *sender) Close() error {
+	if len(s.e.txs)%2 == 1 {
+		s.e.block(cpInfo{kind: "close"})
+	}
+	return nil
+}
 func (s *sender) Reset() error { s.e.block(cpInfo{kind: "reset"}); return nil }
 
 // --- allocator wrapper (messagequeue.Allocator): the real allocator does all the accounting; the
@@ -685,7 +696,7 @@ func (e *env) built(tx *txRec, b *messagequeue.Builder, fn func(*messagequeue.Bu
 	tx.bidx = idx
 	e.nBuilt++
 	tx.buildSeq = e.nBuilt
-	if e.exited.Load() || (e.at != nil && e.at.kind == "relpeer") {
+	if e.exited.Load() || (e.at != nil && (e.at.kind == "relpeer" || e.at.kind == "close")) {
 		tx.dead = true
 	}
 	fn(b)
@@ -905,6 +916,9 @@ func (e *env) stream(req int) responseassembler.ResponseStream {
 
 func pcName(e *env) string {
 	if e.at != nil {
+		if e.at.kind == "close" {
+			return "relpeer"
+		}
 		return e.at.kind
 	}
 	if e.exited.Load() {
@@ -1269,6 +1283,21 @@ func (e *env) doAck(res *result, r string) {
 		return
 	}
 	e.at = nil
+	if at.kind == "close" {
+		// sender.Close() returns; the goroutine goes on to its deferred ReleasePeerMemory, which is the
+		// call this `ack` answers
+		e.release <- "ok"
+		select {
+		case info := <-e.arrive:
+			at = &info
+		case <-time.After(60 * time.Second):
+			res.fail("watchdog", "no ReleasePeerMemory after sender.Close() returned")
+			return
+		}
+		if at.kind != "relpeer" {
+			res.fail("watchdog", "after sender.Close() the queue goroutine stopped at %q, not at ReleasePeerMemory", at.kind)
+		}
+	}
 	switch at.kind {
 	case "connect":
 		if r != "ok" && !e.afterReset {
